@@ -1071,8 +1071,11 @@ pub mod witness_c18 {
         if reference.by_author.iter().map(|v| v.len()).sum::<usize>() != 8 {
             eprintln!("c18: setup stored {:?} entries, expected 8 (deletion marker at 'd' replaces nothing)", reference.by_author.iter().map(|v| v.len()).collect::<Vec<_>>());
         }
-        for (name, drop_heads, drop_index) in [("none", false, false), ("heads", true, false), ("by-key index", false, true), ("both", true, true)] {
-            let path = dir.join(format!("{}.redb", name.replace(' ', "_")));
+        // `emptied`: the derived table is there but empty, which is what an open of an older file leaves behind when it is
+        // interrupted after the transaction that creates the tables and before the populate migrations committed
+        for (name, drop_heads, drop_index, emptied) in [("none", false, false, false), ("heads", true, false, false), ("by-key index", false, true, false), ("both", true, true, false),
+            ("heads (left empty)", true, false, true), ("by-key index (left empty)", false, true, true), ("both (left empty)", true, true, true)] {
+            let path = dir.join(format!("{}.redb", name.replace([' ', '(', ')'], "_")));
             std::fs::copy(&base, &path).unwrap();
             {
                 let db = redb::Database::create(&path).unwrap();
@@ -1084,6 +1087,16 @@ pub mod witness_c18 {
                     tx.delete_table(RECORDS_BY_KEY_TABLE).unwrap();
                 }
                 tx.commit().unwrap();
+                if emptied {
+                    let tx = db.begin_write().unwrap();
+                    if drop_heads {
+                        let _ = tx.open_table(LATEST_PER_AUTHOR_TABLE).unwrap();
+                    }
+                    if drop_index {
+                        let _ = tx.open_table(RECORDS_BY_KEY_TABLE).unwrap();
+                    }
+                    tx.commit().unwrap();
+                }
             }
             let first = {
                 let mut store = match Store::new_impl(redb::Database::create(&path).unwrap()) {
